@@ -351,10 +351,11 @@ STRINGS = {
     "url_schemes": [("http,ftp", ["http", "ftp"]), ("{http: null, x: 'u{{path}}'}", {"http": None, "x": "u{{path}}"}),
                     ("{http: {url: u, classes: [c]}}", {"http": {"url": "u", "classes": ["c"]}}), ("1", "REJECT"), ("{", "REJECT"),
                     ("{http: {url: 1}}", "REJECT")],
-    "html_meta": [("{a: b}", {"a": "b"}), ("a=b", "REJECT"), ("[1]", "REJECT"), ("{a: 1}", "REJECT")],
-    "substitutions": [("{a: 1}", {"a": 1}), ("x", "REJECT")],
+    "html_meta": [("{a: b}", {"a": "b"}), ("a=b", "REJECT"), ("[1]", "REJECT"), ("{a: 1}", "REJECT"), ("{}", {}), ("[]", "REJECT"), ("0", "REJECT"), ("false", "REJECT"),
+                  ("''", "REJECT")],
+    "substitutions": [("{a: 1}", {"a": 1}), ("x", "REJECT"), ("{}", {}), ("[]", "REJECT"), ("0", "REJECT"), ("false", "REJECT")],
     "heading_slug_func": [("myst_parser.config.main._test_slug_func", "myst_parser.config.main._test_slug_func"), ("no.such", "REJECT")],
-    "inventories": [("{k: [u, null]}", {"k": ["u", None]}), ("{k: u}", "REJECT")],
+    "inventories": [("{k: [u, null]}", {"k": ["u", None]}), ("{k: u}", "REJECT"), ("[]", "REJECT"), ("0", "REJECT"), ("false", "REJECT")],
 }
 
 
